@@ -198,7 +198,7 @@ def shard_corpus(prop: str, tier: str, seed: int, name: str, double: bool) -> di
 def shard_generated(prop: str, tier: str, seed: int, n: int, double_budget: int) -> dict[str, Any]:
     c = Campaign(prop, tier, seed, LEVEL)
     spec_st = st.one_of(
-        dag_spec(max_stages=6, allow=("multi", "fail", "cof", "poll", "transient")),
+        dag_spec(max_stages=6, allow=("multi", "fail", "cof", "stop", "poll", "transient")),
         dag_spec(max_stages=5, allow=("multi", "poll"), joins=("AND", "DISC", "NOFM")),
         loop_spec(max_j=2),
         syn_confluent_spec(),
